@@ -220,16 +220,6 @@ fn rotate(
         fs::create_dir_all(parent)?;
     }
 
-    // In the common case, all of the archived files will be in the same
-    // directory, so avoid extra filesystem calls in that case.
-    let parent_varies = match (
-        Path::new(dst_0.as_ref()).parent(),
-        Path::new(expand_env_vars(&pattern).as_ref()).parent(),
-    ) {
-        (Some(a), Some(b)) => a != b,
-        _ => false, // Only case that can actually happen is (None, None)
-    };
-
     #[cfg(log4rs_verif)]
     let mut verif_step = 0usize;
     for i in (base..base + (count - 1)).rev() {
@@ -241,10 +231,10 @@ fn rotate(
             verif_step += 1;
         }
 
-        if parent_varies {
-            if let Some(parent) = Path::new(dst.as_ref()).parent() {
-                fs::create_dir_all(parent)?;
-            }
+        // The index (and `$ENV{..}` references depending on it) may occur in a directory
+        // component, so every archive can live in a directory of its own.
+        if let Some(parent) = Path::new(dst.as_ref()).parent() {
+            fs::create_dir_all(parent)?;
         }
 
         move_file(src.as_ref(), dst.as_ref())?;
